@@ -14,7 +14,7 @@ func init() {
 }
 
 func runC09(p *core.Prog, r *core.Report) {
-	r.Explain = "Decides that (re-)indexing consults the removal state and that removal marks are not lost, on all CFG paths: (R1) DB.put writes metadata and counters only after the container was seen not removed and db.exists answered 'absent' with nil or a not-found-class error — tombstoned, expired and locked outcomes return; (R2) the batch put used by the metabase rebuild continues after a failed put only for the three tolerated outcomes (already removed, expired, locked) and otherwise aborts; the rebuild inserts only through that batch put, and db.put has only the tabled callers; (R3) a tombstone writes the garbage mark of every target on every path through its loop (stored or not — this is what lets GC collect a leftover blob and keeps a late or re-indexed target removed); (R4) garbage keys are built / deleted only in the tabled functions (a mark disappears only together with the object's metadata or by explicit revival). Not covered: GC / flush / crash interleavings; the write-cache flush-versus-delete window (flushSingle and deleteObjs share no lock, so no static exclusion argument exists)."
+	r.Explain = "Decides that (re-)indexing consults the removal state and that removal marks are not lost, on all CFG paths: (R1) DB.put writes metadata and counters only after the container was seen not removed and db.exists answered 'absent' with nil or a not-found-class error — tombstoned, expired and locked outcomes return; (R2) the batch put used by the metabase rebuild continues after a failed put only for the three tolerated outcomes (already removed, expired, locked) and otherwise aborts; the rebuild inserts only through that batch put, and db.put has only the tabled callers; (R3) a tombstone writes the garbage mark of every target on every path through its loop (stored or not — this is what lets GC collect a leftover blob and keeps a late or re-indexed target removed); (R4) garbage keys are built / deleted only in the tabled functions (a mark disappears only together with the object's metadata or by explicit revival); (R5) the shard deletes from blob storage every id whose metadata the metabase removed — no path through that loop skips the blob Delete — so that no orphan blob is left for a later resync to re-index. Not covered: GC / flush / crash interleavings; the write-cache flush-versus-delete window (flushSingle and deleteObjs share no lock, so no static exclusion argument exists)."
 	fns := p.FuncsIn("pkg/local_object_storage/metabase")
 	put := p.Func(mbDB + "put")
 	if put == nil {
@@ -163,4 +163,7 @@ func runC09(p *core.Prog, r *core.Report) {
 	core.CheckCallers(p, r4, append(fns, p.FuncsIn("pkg/local_object_storage/shard")...), []core.CallerRule{
 		{Sink: mbDB + "ReviveObject", MinSites: 1, Allowed: map[string]string{"(*pkg/local_object_storage/shard.Shard).ReviveObject": "operator request through the control service"}},
 	})
+	// ---------------- R5 no orphan blob is left to be re-indexed
+	r5 := r.Rule("C09.R5", "Shard.deleteObjs deletes from blob storage every id the metabase removed (a blob left behind is re-indexed by the next resync once the tombstone is gone)", 2)
+	blobDeleteForEveryRemoved(p, r, r5)
 }
